@@ -226,14 +226,12 @@ class BaseCurve(Intface_BaseCurve):
         selfcopy.degree = maxdegree
         othercopy.degree = maxdegree
         npts0 = selfcopy.npts
-        npts1 = othercopy.npts
-        newknotvector = [0] * (maxdegree + npts0 + npts1 + 1)
-        newknotvector[:npts0] = selfcopy.knotvector[:npts0]
-        newknotvector[npts0:] = othercopy.knotvector[1:]
-        newknotvector = KnotVector(newknotvector)
-        newctrlpoints = [0] * (npts0 + npts1 - 1)
-        newctrlpoints[:npts0] = selfcopy.ctrlpoints[:npts0]
-        newctrlpoints[npts0:] = othercopy.ctrlpoints[1:]
+        # The junction knot gets multiplicity degree+1: both curves keep all
+        # their control points, knot_clean removes what is not needed
+        newknotvector = list(selfcopy.knotvector[:npts0])
+        newknotvector += list(othercopy.knotvector)
+        newknotvector = KnotVector(newknotvector, maxdegree)
+        newctrlpoints = list(selfcopy.ctrlpoints) + list(othercopy.ctrlpoints)
         newcurve = self.__class__(newknotvector, newctrlpoints)
         newcurve.knot_clean([umaxleft])
         return newcurve
